@@ -9,8 +9,13 @@ package kvdb
 //
 // nopen counts OpenDB calls on database producers.
 //@ ghost nopen int
+//@ ghost gNamesN int
 //@
 //@ iface DBProducer.OpenDB
 //@   modifies nopen
 //@   ghost nopen = old(nopen) + 1
 //@   ensures result1 == nil ==> result0 != nil
+//@ // gNamesN counts Names() calls on database producers
+//@ iface Iterable.Names
+//@   modifies gNamesN
+//@   ghost gNamesN = old(gNamesN) + 1
